@@ -123,6 +123,33 @@ HISTORY = {
     "also run with metaclass=DBCMeta roots",
     "C19_r8_reserved_parameter_check_moved_into_decorators": "missed at first (reserved names only on directly decorated callables); caught after "
     "overrides without contracts of their own in DBC hierarchies",
+    "C05_r9_signature_cached_per_code_object": "missed at first (every function came from a def statement executed once); caught after the factory "
+    "scenario: one def executed 2..4 times with default objects of its own each time (function, async, method, contracts applied afterwards)",
+    "C06_r9_chained_comparison_stops_only_at_false_object": "missed at first (every comparison of the grammar answered with a bool); caught after "
+    "the value class whose comparisons answer 1 / 0 / None / '' / [] was added to the grammar (also caught by C07)",
+    "C08_r9_same_snapshot_object_applied_twice_accepted": "missed at first (duplicate names came from two decorator objects); caught after the misuse "
+    "matrix applies one shared snapshot object twice to one function",
+    "C09_r9_keyword_only_error_parameters_dropped": "missed at first (factories of C09 had positional-or-keyword parameters only); caught after a "
+    "keyword-only marker is placed at a random position of the factory's parameter list",
+    "C10_r9_sync_wrappers_ignore_the_task": "missed at first (asynchronous graphs were driven by hand outside an event loop, and re-entrant calls were "
+    "only required to terminate); caught after every other asynchronous graph runs inside a task and the judge demands that a re-entrant call on "
+    "an object in flight IS skipped (also caught by C13 after its nested pairs run inside a task)",
+    "C11_r9_dead_marks_count_while_any_mark_is_active": "missed at first (faulted calls and their follow-ups ran at top level only); caught after a "
+    "fifth of the faulted runs is repeated while another check of the flow is in progress (inside a condition, a capture, a method body)",
+    "C12_r9_post_phase_writes_back_stale_mark_set": "missed at first (the first call of the shared-context scenario was a method without contracts "
+    "of its own); caught after six kinds of first call (functions with pre / post / suspended in a capture or a condition) x two judged calls",
+    "C13_r9_async_post_phase_reactivates_pruned_mark": "missed at first (no contract used the function it describes after the body had made other "
+    "checked calls); caught after the re-entrant function pairs (fixed point, factorial, mutual recursion, method) were added",
+    "C15_r9_disabled_invariant_wraps_members_for_inherited_invariants": "missed at first (disabled invariants only on classes without inherited "
+    "invariants); caught after the plain sub-class of a class with an explicitly enabled invariant was added to the child program",
+    "C17_r9_property_accept_all_reset_written_to_base_checker": "missed at first (random histories rarely join an accept-all base with a stating one "
+    "and override a property); caught after 24 fixed join histories (6 member kinds x 2 base orders x 2 overrides)",
+    "C18_r9_members_wrapped_by_last_invariant_events_only": "missed at first (invariants were judged by hand against the construction only); caught "
+    "after the listed invariants of the event are evaluated by hand against an operation on an object that is already broken",
+    "C19_r9_async_invariant_condition_behind_partial": "missed at first (no asynchronous condition behind functools.partial); caught after six more "
+    "forms (partial of coroutine function / async generator / callable objects, bound async methods); re-created after the fix 2e69079",
+    "C20_r9_representable_by_concrete_type_list": "missed at first (routines passed as arguments were a plain function, a bound method and a "
+    "builtin); caught after a memoized function and raw staticmethod / classmethod objects were added to the arguments",
 }
 
 
